@@ -11,7 +11,7 @@ def run(pid, tier):
     build_harness()
     collect(o, pid, tier, toy=True)
     o.assumptions = [
-        'table VALUES are compared (2^-30) with spec/ZigRefTable.tla, the ziggurat computed independently from R with mpmath (exp/erfc are not TLC\'s); NOT decided: the accept/reject decision inside the wedge (compares with exp), the laws of the tail routines, the statistical match per layer',
+        'table VALUES are compared (2^-30) with spec/ZigRefTable.tla, the ziggurat computed independently from R with mpmath (exp/erfc are not TLC\'s); the accept/reject decision inside the wedge and the tail tests are decided POINTWISE: at 140 wedge anchors (10 layers x 7 positions, both signs for the normal) the accepted fraction of the second word equals (pdf(x) - F[i]) / (F[i+1] - F[i]) to 2^-34 in exact integers with the crate\'s exported F and pdf(x) from spec/ZigAccTable.tla (mpmath), the normal tail accepts with probability exp(-x^2/2) and the exponential tail has P(out <= R + t) = 1 - exp(-t) to 2^-40 at 6 anchors each; NOT decided: the same statements between the anchors',
         'design level: ZigToy.tla counts tickets of the transcribed loop on a rational toy density (4 layers, 48x48 lattice): law holds up to lattice resolution, three wrong designs fail; the real loop is bound by the automaton over observable facts (layer bits, sign bit, words consumed, result region)',
         'fixed-point limbs floor(x*2^40), floor(f*2^45) and ordinals are representation changes made by the harness',
     ]
@@ -63,6 +63,26 @@ def collect(o, pid, tier, toy=True):
             o.finding(kind='zig', dist=ev.get('dist'), layer_class='base' if ev.get('i') == 0 else 'layer', words=ev.get('words'), tag=ev.get('tag'),
                       res=str(ev.get('res'))[:80], f32ok=ev.get('f32ok'), event=ev,
                       signature='zig:%s:%s:%s:%s:%s' % (ev.get('dist'), 'base' if ev.get('i') == 0 else 'layer', min(ev.get('words', 0), 4), ev.get('f32ok'), str(ev.get('res'))[:30]))
+    # the two comparisons with the density: wedge acceptance fraction and tail laws, measured at the anchors of ZigAccTable
+    za = wd / 'zigacc.ndjson'
+    ra = tlc('MCZigAcc', 'MCZigAcc.cfg', pid, pre + 'acc_cases', workers=1, timeout=1200, heap='2g',
+             pipe_to=[str(RDV), 'zigacc-drive', '--out', str(za)])
+    require_ok(ra, 'MCZigAcc')
+    sa = json.loads(ra.consumer_out.strip().splitlines()[-1])
+    if sa['events'] < 200:
+        raise ToolError('zigacc-drive: too few events: %s' % sa)
+    rb = tlc('TraceZigAcc', 'TraceZigAcc.cfg', pid, pre + 'acc_trace', trace_mode=True, env={'TRACE': za, 'TABLE': tab}, timeout=1200, heap='4g')
+    require_ok(rb, 'TraceZigAcc')
+    if rb.rejected or rb.violated:
+        raise ToolError('zigacc trace not consumed: %s' % (rb.rejected or rb.violated))
+    o.add_tlc(rb, 'TraceZigAcc: %d measured acceptance counts (wedge, normal tail, exponential tail)' % sa['events'])
+    zl = za.read_text().splitlines()
+    o.traces += len(zl)
+    o.extra['zigacc_drive'] = sa
+    for (ln, ev) in parse_bad(rb.out):
+        o.finding(kind='zigacc', op=ev.get('op'), tab=ev.get('tab'), i=ev.get('i'), k=ev.get('k'), neg=ev.get('neg'), res=str(ev.get('res'))[:80], show=ev.get('show'), event=ev,
+                  signature='zigacc:%s:%s:%s:%s' % (ev.get('op'), ev.get('tab'), ev.get('i'), ev.get('neg')))
+    o.samples.append({'kind': 'measured wedge acceptance count', 'event': json.loads(zl[10])})
     evs = [json.loads(x) for x in lines[::37]]
     single = sum(1 for e in evs if e.get('single'))
     if single == 0:
